@@ -372,7 +372,7 @@ func main() {
 		runConf(run, r, c, base)
 		c.close()
 	}
-	run.Floor("routes_checked", int64(nConf*10))
+	run.Floor("routes_checked", int64(nConf*6))
 	run.Floor("must_fail_checked", 20)
 	run.Floor("via_http_proxy", 40)
 	run.Floor("via_tls_proxy", 15)
